@@ -302,14 +302,13 @@ func (s *Session) asMulticastConsumer(stream *media.Stream, resp *Response) (err
 	s.logger = s.logger.With(xlog.Fields(
 		xlog.F("path", s.path),
 		xlog.F("type", "multicast-player")))
-	err = s.response(resp)
-	if err != nil {
-		return err
-	}
 
+	// 先加入组播代理再应答，理由同 asTCPConsumer: the first member starts the proxy,
+	// and what is published after the client has read the 200 must reach the group.
+	// Media goes to the group address, so it cannot get in front of the response.
 	c.timeout = 0 // play 只需发送不用接收，因此设置不超时
 	s.consumer = c
 
 	ma.AddMember(s)
-	return nil
+	return s.response(resp)
 }
